@@ -455,17 +455,22 @@ def rt_projection(inp):
     tol = 1e-11 * scale
     if err > tol:
         # classify: the measured pattern rolled by the fftshift/ifftshift mismatch (odd sizes only)?
+        odd = bool(nr % 2 or nc % 2)
         rolled = np.roll(meas, (-(nr % 2), -(nc % 2)), axis=(-2, -1))
         err_r = np.abs(det_amp - rolled).max()
-        if (nr % 2 or nc % 2) and err_r <= tol:
+        if odd and err_r <= tol:
             kinds.add("odd-roi-roll")
             problems.append(f"ROI {nr}x{nc}: amplitudes of the projected wave (through DetectorPixelated) equal the measured ones rolled by (-{nr % 2},-{nc % 2}); max dev from measured {err:.3e}")
         else:
-            ref = rolled if (nr % 2 or nc % 2) else meas
-            e2 = np.abs(det_amp - ref)
             Fm = np.sqrt((np.abs(np.fft.fftshift(np.fft.fft2(ov, norm="ortho"), axes=(-2, -1))) ** 2).sum(axis=0))
-            if (nr % 2 or nc % 2):
+            # which reference explains the result better on the well-conditioned coefficients: the measured pattern or its roll?
+            good = Fm > 1e-3 * max(Fm.max(), 1e-300)
+            use_roll = odd and np.abs(det_amp - rolled)[good].max(initial=0.0) < np.abs(det_amp - meas)[good].max(initial=0.0)
+            ref = rolled if use_roll else meas
+            e2 = np.abs(det_amp - ref)
+            if use_roll:
                 kinds.add("odd-roi-roll")
+                problems.append(f"ROI {nr}x{nc}: projected amplitudes follow the measured pattern rolled by (-{nr % 2},-{nc % 2}) (fftshift where ifftshift is needed)")
             zero_pix = Fm < 1e-6 * max(1.0, inp.get("scale", 1.0))  # coefficients that (numerically) vanish in all modes
             if inp.get("scale", 1.0) < 1.0:
                 zero_pix = Fm < 1e-300
